@@ -397,7 +397,7 @@ pub static CURRENT_CASE_FILE: std::sync::OnceLock<String> = std::sync::OnceLock:
 /// process when one call takes longer than `CASE_LIMIT_S` - the check then reports the noted case as the input on which
 /// the library does not return
 pub static CASE_STARTED_MS: std::sync::atomic::AtomicU64 = std::sync::atomic::AtomicU64::new(0);
-pub const CASE_LIMIT_S: u64 = 300;
+pub const CASE_LIMIT_S: u64 = 120;
 
 /// note what is about to be handed to the library (any JSON object text), for the check to report when the process dies
 pub fn note_current(json: &str) {
